@@ -92,7 +92,7 @@ pub fn deep_case(inner: &RefValue, levels: &[(bool, bool)], base: &Opts, la: Lim
 pub fn run(ctx: &mut Ctx) {
 	let rule_nt = "non-trivial = at least one container expanded and one inline, or array and object spacing/limits differ while both kinds occur";
 	if ctx.wants("G_values_x_options") {
-		let n = ctx.pick(100_000, 2_000_000);
+		let n = ctx.pick(250_000, 2_000_000);
 		let fam = Fam::new("G_values_x_options", &format!("proptest: random value x random option record, output byte-equal to the reference layout printer; {rule_nt}"), false);
 		let fam = run_proptest(
 			ctx,
@@ -108,7 +108,7 @@ pub fn run(ctx: &mut Ctx) {
 		ctx.add(fam);
 	}
 	if ctx.wants("R_relative_thresholds") {
-		let n = ctx.pick(100_000, 2_000_000);
+		let n = ctx.pick(250_000, 2_000_000);
 		let fam = Fam::new("R_relative_thresholds", &format!("proptest: as above, but the array or object limit is set to Width(w+d), Item(n+d) or ItemOrWidth(n+d, w+d) with d in -1..=1 around the actual one-line width w and length n of a randomly chosen container of the value; {rule_nt}"), false);
 		let fam = run_proptest(
 			ctx,
